@@ -192,7 +192,7 @@ def render(doc, override=None):
     if nd["space"]:
       el.set(qn(NS_XML, "space"), nd["space"])
     if nd["lang"]:
-      el.set(qn(NS_XML, "lang"), nd["lang"])
+      el.set(qn(NS_XML, "lang"), "" if nd["lang"] == "-" else nd["lang"])
     if nd["srefs"]:
       el.set("style", " ".join(nd["srefs"]))
     for p, v in nd["attrs"]:
